@@ -5,8 +5,10 @@ import (
 	"runtime"
 	"runtime/debug"
 
+	"voicheck/edt"
 	"voicheck/elin"
 	"voicheck/erange"
+	"voicheck/esib"
 )
 
 // C04 — field arithmetic exact mod 2^255-19.  The clause decided here is "no
@@ -58,11 +60,13 @@ func init() {
 		run.NotDecided = append(run.NotDecided,
 			"inversion, square roots and the exponentiation chains (compositions of the decided primitives): not decided; multiplication/squaring/Pow2k/Mul121666/Add/Sub/Neg written in Go ARE decided functionally by E-LIN (result ≡ product mod p coefficient-wise in the monomials a_i·b_j); the induction over k in Pow2k is argued from the one-iteration check",
 			"the amd64 assembly (feMul, fePow2k) and the AVX2 vector code: no range model of assembly; in the amd64 configuration Mul, Square, Square2 and Pow2k are reported as not decided and stage B is not run",
-			"the last step of ToBytes's canonicalisation argument (discarded carry = quotient) is a stated two-case argument from decided facts, not mechanised; that the bias constants of Sub/Neg are a multiple of p (E-CONST), limb uniformity of the limb-wise operations (E-SIB)",
+			"the last step of ToBytes's canonicalisation argument (discarded carry = quotient) is a stated two-case argument from decided facts, not mechanised; that the bias constants of Sub/Neg are a multiple of p (E-CONST)",
 			"curve/scalar: the 64-bit back end is analysed by erange.CheckScalar64 under property C05; the 32-bit scalar back end wraps on purpose (Karatsuba) and is out of reach of intervals",
 		)
 
 		erange.DeclareFieldRules(run, "RANGE-A", stageA)
+		bi := run.Rule("DT-batchinvert", "BatchInvert is Montgomery's trick with zero skipping, uniform over all indices", 4*len(stageA))
+		run.Rule("SIB-uniform", "limb-wise operations compute limb i from limbs i by one template for all i", 8*len(stageA))
 		if len(stageB) > 0 {
 			erange.DeclareStageBRules(run, "RANGE-B", stageB)
 		}
@@ -89,6 +93,9 @@ func init() {
 				if id == stageA[0] {
 					run.Sample(map[string]any{"config": id, "MUL functions": mr.Functions, "MUL obligations": mr.Obligations})
 				}
+				// Montgomery's trick and limb uniformity
+				edt.Check(bi, &edt.Config{P: p, Mod: modFor(p)}, batchInvertSpec())
+				esib.CheckUniform(run, p, "SIB-uniform")
 				lr := elin.CheckField(run, p, "LIN")
 				if id == stageA[0] {
 					run.Sample(map[string]any{"config": id, "LIN functions": lr.Functions, "LIN obligations": lr.Obligations})
@@ -99,6 +106,12 @@ func init() {
 				c.Drop(id)
 			}
 			runtime.GC()
+		}
+		// the Go side of the AVX2 back end (lane packing) is limb-wise code too: uniformity in the amd64 configuration
+		if c.Tier != "thorough" && c.Preload("amd64") {
+			run.SetConfig("amd64")
+			esib.CheckUniform(run, c.Prog("amd64"), "SIB-uniform")
+			c.Drop("amd64")
 		}
 		if len(stageB) == 0 {
 			run.NotDecided = append(run.NotDecided, "stage B (pre-conditions at the call sites of field.go, curve, internal/elligator, primitives/h2c) runs in the thorough tier only")
